@@ -296,7 +296,7 @@ func TestAny(t *testing.T) {
 			}
 			return out
 		},
-		Quick: 12000, Thorough: 200000,
+		Quick: 12000, Thorough: 120000,
 	})
 }
 
